@@ -19,7 +19,8 @@ EXPLANATION = (
     "symbolic characters per path) is matched against the input by a relation that IS the statement: the output is a concatenation of pieces, each either "
     "one input character unchanged, or \\\\A{B} where B is the next input character and the accent's combining mark is the input character after it, or "
     "\\\\A{B} where (input character, B, mark(A)) is a canonical decomposition; z3 proves that a matching exists on every path (reading each \\\\A{B} back as "
-    "B + mark(A) then reproduces the input up to the canonical decompositions unicodedata itself reports). All-ASCII input: output proven identical."
+    "B + mark(A) then reproduces the input up to the canonical decompositions unicodedata itself reports). All-ASCII input: output proven identical. The same relation is "
+    "proved for the \\def\\text.. line of TimelineTex.export() on a one-character symbolic label (the call site)."
 )
 BOUNDS = {"quick": dict(length="0..2 characters, every code point"), "thorough": dict(length="0..3 characters")}
 OUTSIDE = ["strings longer than 3 characters (the function is a one-pass scan with one character of look-ahead)", "full NFD re-ordering of several marks on one base", "TeX special characters pass through by design"]
@@ -33,7 +34,39 @@ def configs(tier):
     ns = [0, 1, 2] if tier == "quick" else [0, 1, 2, 3]
     out = [dict(name="uni-n%d" % n, n=n, ascii=False, weight=30 ** n, shards=(1 if n < 2 else (8 if n == 2 else 16))) for n in ns]
     out += [dict(name="ascii-n%d" % n, n=n, ascii=True, weight=1) for n in (1, 2, 3)]
+    out += [dict(name="export-n1", n=1, ascii=False, export=True, weight=40, shards=2)]
     return out
+
+
+def run_export(e, cfg):
+    """the TikZ export path: the \\def\\text.. line of a timeline whose only label carries the symbolic text"""
+    from labella.scale import LinearScale
+    from labella.timeline import TimelineTex
+
+    n = cfg["n"]
+    sink = props.SymSink(e)
+
+    def doc_for(text):
+        tl = TimelineTex([{"time": 5.0, "width": 30, "text": text}, {"time": 50.0, "width": 30}], {"scale": LinearScale(), "domain": [0.0, 100.0]})
+        return tl.export()
+
+    ref = doc_for("X")
+    marker = "\\def\\textA{"
+    p = ref.index(marker) + len(marker)
+    text = SymStr.fresh(e, "c", n, 0, sys.maxunicode)
+    try:
+        doc = doc_for(text)
+    except Exception as ex:
+        sink.check("export-never-raises", False, info="%s: %s" % (type(ex).__name__, str(ex)[:100]))
+        return
+    dcp = list(doc.cps) if isinstance(doc, SymStr) else [ord(ch) for ch in doc]
+    lb = len(dcp) - (len(ref) - 1)
+    pre_ok = all(isinstance(x, int) and x == ord(y) for x, y in zip(dcp[:p], ref[:p]))
+    suf = ref[p + 1 :]
+    suf_ok = lb >= 0 and all(isinstance(x, int) and x == ord(y) for x, y in zip(dcp[p + lb :], suf)) and len(dcp[p + lb :]) == len(suf)
+    sink.check("document-around-the-text-macro-is-unchanged", pre_ok and suf_ok, info="body length %d" % lb)
+    if pre_ok and suf_ok:
+        sink.check("text-macro-is-the-input-with-accents-as-tex-commands", matches(list(text.cps), dcp[p : p + lb]), info="body length %d" % lb)
 
 
 def matches(inp, out):
@@ -72,6 +105,8 @@ def matches(inp, out):
 
 
 def run(e, cfg):
+    if cfg.get("export"):
+        return run_export(e, cfg)
     from labella.tex import uni2tex
 
     n = cfg["n"]
@@ -96,6 +131,22 @@ def replay(cfg, inputs, check, info):
     from labella.tex import uni2tex
 
     text = "".join(chr(int(inputs["c_%d" % i])) for i in range(cfg["n"]))
+    if cfg.get("export"):
+        from labella.scale import LinearScale
+        from labella.timeline import TimelineTex
+
+        try:
+            doc = TimelineTex([{"time": 5.0, "width": 30, "text": text}, {"time": 50.0, "width": 30}], {"scale": LinearScale(), "domain": [0.0, 100.0]}).export()
+        except Exception as ex:
+            return dict(violated=True, detail="TimelineTex export with label %r raises %s: %s" % (text, type(ex).__name__, ex), signature="C19:export-exception")
+        marker = "\\def\\textA{"
+        i = doc.index(marker) + len(marker)
+        j = doc.index("}\n", i) if not text.endswith("}") else doc.index("}\n", i) + 0
+        # the body ends at the LAST '}' of its line
+        line_end = doc.index("\n", i)
+        body = doc[i : line_end - 1]
+        ok = matches([ord(c) for c in text], [ord(c) for c in body])
+        return dict(violated=not ok, detail="label %r is written to TeX as %r" % (text, body), signature="C19:export")
     try:
         out = uni2tex(text)
     except Exception as ex:
